@@ -114,7 +114,16 @@ def build(bins=("vsim",), quiet=True):
     cmd = ["cargo", "build", "--offline", "--profile", "sim"]
     for b in bins:
         cmd += ["-p", b]
-    p = subprocess.run(cmd, cwd=SIM, env=cargo_env(), stdout=subprocess.PIPE, stderr=subprocess.STDOUT, text=True)
+    env = cargo_env()
+    p = subprocess.run(cmd, cwd=SIM, env=env, stdout=subprocess.PIPE, stderr=subprocess.STDOUT, text=True)
+    if p.returncode != 0 and "vsim" in bins and "VERIF_NO_EXTRACT" not in env:
+        # the pieces of main() that vsim's build script cuts out of the server source and wraps into functions may
+        # stop compiling when main() is restructured: fall back to the harness's hand copy of those lines
+        env["VERIF_NO_EXTRACT"] = "1"
+        p2 = subprocess.run(cmd, cwd=SIM, env=env, stdout=subprocess.PIPE, stderr=subprocess.STDOUT, text=True)
+        if p2.returncode == 0:
+            print("WARN: the lines cut out of the server's main() did not compile inside the harness; using the hand-copied interceptor / recount / start-up decision instead")
+            p = p2
     if p.returncode != 0:
         sys.stdout.write(p.stdout[-20000:])
         print("HARNESS-ERROR: build failed (not a property verdict)")
@@ -122,6 +131,14 @@ def build(bins=("vsim",), quiet=True):
     if not quiet:
         sys.stdout.write(p.stdout[-2000:])
     return {b: os.path.join(TARGET, "sim", b) for b in bins}, time.time() - t0
+
+
+def main_pieces_mode(vsim_path):
+    """'extracted' when vsim runs main()'s own interceptor / recount / start-up lines, 'stub' for the hand copy."""
+    try:
+        return subprocess.run([vsim_path, "mode-info"], capture_output=True, text=True, timeout=20).stdout.strip() or "stub"
+    except Exception:
+        return "stub"
 
 
 if __name__ == "__main__":
